@@ -457,8 +457,11 @@ def directed_prologue(job: Dict[str, Any], km, stage: int) -> List[Dict[str, Any
                 ds([k1, "a"]), attach([k1, "a"], "DD01"), mk("delete", p=[k1])]
     if kind == "two_schemas_one_package":
         # first schema of a package, then a second one of the same package, then the first one's last object goes
-        return [ds(["a"]), attach(["a"], "DD01"), attach(["a"], "AA10", as_="dict"), mk("detach", p=["a"], schema="vf.dd"),
-                ds(["b"]), attach(["b"], "AUX01"), mk("detach", p=["a"], schema="vf.aa")]
+        # (vf.dd and vf.aa 2.0.0 come from the same package at every stage; vf.bb and vf.cc from the later one)
+        ops = [ds(["a"]), attach(["a"], "DD01"), attach(["a"], "AA20", as_="dict"), mk("detach", p=["a"], schema="vf.dd")]
+        if stage >= 1:
+            ops += [ds(["b"]), attach(["b"], "BB10"), attach(["b"], "CC02", as_="dict"), mk("detach", p=["b"], schema="vf.bb")]
+        return ops + [mk("detach", p=["a"], schema="vf.aa")]
     if kind == "copy_without_meta_below":
         # the only object of a schema with an ancestor sits below a group; the group is copied without metadata
         return [mk("create_group", p=["b"]), ds(["b", "c"]), attach(["b", "c"], child), mk("copy", p=["b"], q=["a"], without_meta=True),
@@ -473,7 +476,8 @@ def directed_prologue(job: Dict[str, Any], km, stage: int) -> List[Dict[str, Any
 def run_history(job: Dict[str, Any], emit, scratch: Path, tk: h5lib.Tokens, env: CL.Env):
     tid = job["tid"]
     rng = random.Random(job["seed"])
-    km = h5lib.KeyMap(rng, job.get("concrete", False))
+    want_prefix = job.get("directed") == "prefix_siblings"
+    km = h5lib.KeyMap(rng, job.get("concrete", False) or want_prefix, prefix_family=want_prefix)
     pref = [k for k, v in km.k.items() if any(o != v and o.startswith(v) for o in km.k.values())]
     ext = [k for k, v in km.k.items() if any(o != v and v.startswith(o) for o in km.k.values())]
     job = dict(job, _hot=[k for k, v in km.k.items() if "metador_" in v[1:]] + ext, _pref=pref)
